@@ -119,8 +119,11 @@ def gen_values(rng, rule):
     return rng.choice(["v", "m0", "m1", "p0", "p1", "A", "B=1", "inc", "f.h", "default"])
 
 
-def gen_rule(rng, used_flags):
-    pool = [f for f in FLAG_POOL if f not in used_flags]
+BUILTIN_FLAGS = {"-fopenmp", "-fsycl", "-fsycl-is-device", "-fsycl-targets", "--gpu-architecture", "--gpu-code", "-gencode"}
+
+
+def gen_rule(rng, used_flags, allow_conflict=False):
+    pool = [f for f in FLAG_POOL if f not in used_flags and (allow_conflict or f not in BUILTIN_FLAGS)]
     if not pool:
         return None
     flags = rng.sample(pool, min(len(pool), rng.choice([1, 1, 1, 2, 3])))
@@ -244,7 +247,7 @@ def gen_user(rng, odd=False):
         rules = []
         if rng.random() < 0.85:
             for _ in range(rng.randint(1, 4)):
-                rr = gen_rule(rng, [] if (odd and rng.random() < 0.1) else used)
+                rr = gen_rule(rng, [] if (odd and rng.random() < 0.1) else used, allow_conflict=odd or name not in BUILTIN)
                 if rr:
                     rules.append(rr)
                     used += rr["flags"]
@@ -337,6 +340,26 @@ def exhaustive_user(tier):
     for i in range(0, len(cmds), 4):
         cases.append({"user": EXH_USER, "cmds": cmds[i:i + 4], "e2e": E2E_GUARDS})
     return cases
+
+
+def all_subsets_of_random_config(rng):
+    """a random user configuration x EVERY subset of one occurrence of each of its flags (<= 5 rules of one compiler,
+    plus -DA), as command sequences of 4"""
+    for _ in range(20):
+        user = gen_user(rng)
+        comps = [(n, d) for n, d in user if d.get("parser")]
+        if comps:
+            break
+    else:
+        return []
+    name, d = rng.choice(comps)
+    occ = [gen_tokens(rng, [r]) for r in d["parser"][:5]] + [["-DA"]]
+    aliases = [n for n, dd in user if dd.get("alias_of") == name]
+    cmds = []
+    for k in range(len(occ) + 1):
+        for sub in itertools.combinations(range(len(occ)), k):
+            cmds.append([rng.choice([name, name, "/x/" + name] + aliases), [t for i in sub for t in occ[i]]])
+    return [{"user": user, "cmds": cmds[i:i + 4]} for i in range(0, len(cmds), 4)]
 
 
 def alias_cases():
@@ -445,6 +468,7 @@ class C12(Check):
             "prefixes), argv = 0-7 option occurrences in =, attached and separate spelling mixed with source files.  Blocks: corpus; "
             "every subset of the documented flags of each of the 7 built-in compilers; every subset (<=3 quick / <=5 thorough of 9) of the "
             "flags of a fixed user compiler reached directly and through 1- and 2-step aliases; all 3-node alias graphs over 6 targets; "
+            "40 (quick) / 500 (thorough) random configurations x EVERY subset of one occurrence of each flag of one of their compilers; "
             "random tame stream; random malformed stream (abbreviations, clustered short options, missing values, '--', negative numbers, "
             "conflicting flags, empty tables, duplicate mode names).  Non-trivial = some command yields >= 2 configurations or a "
             "configuration that received a mode/pass contribution, or resolves through >= 1 alias edge, or ends in loop/dangling.")
@@ -471,6 +495,7 @@ class C12(Check):
         blocks = [("exhaustive_builtin", exhaustive_builtin(self.tier)),
                   ("exhaustive_user", exhaustive_user(self.tier)),
                   ("alias_graphs", alias_cases()),
+                  ("random_config_all_subsets", [c for _ in range(40 if q else 500) for c in all_subsets_of_random_config(self.rng)]),
                   ("random_tame", [gen_case(self.rng) for _ in range(2500 if q else 25000)]),
                   ("random_odd", [gen_case(self.rng, odd=True) for _ in range(800 if q else 8000)]),
                   ("random_malformed", [gen_case(self.rng, malformed=True, odd=True) for _ in range(1200 if q else 12000)])]
